@@ -246,21 +246,7 @@ func runC12(c *Ctx) {
 
 	// R4: private copies for in-process recipients
 	const r4 = "C12.R4 in-process recipients get private copies"
-	local := clause("recipient is in-process", T(`^call:invoke:wamp\.Peer\.IsLocal\[%subscriber\.Peer\]\(\)$`))
-	c.Reach(r4, pe, "details copied for a local recipient", ReachSpec{FromEdge: &local, Stop: `^store:new\(wamp\.Event\)\.&Details=makemap\(map\[string\]any\)$`,
-		Cut: []ir.Clause{clause("no details", T(`^\(new\(wamp\.Event\)\.Details == nil\)$`))}, Target: "EXIT", Want: false})
-	c.Reach(r4, pe, "arguments cloned for a local recipient", ReachSpec{FromEdge: &local, Stop: `^store:new\(wamp\.Event\)\.&Arguments=call:slices\.Clone\(%msg\.Arguments\)$`,
-		Cut: []ir.Clause{clause("no arguments", T(`^\(%msg\.Arguments == nil\)$`))}, Target: "EXIT", Want: false})
-	c.Reach(r4, pe, "keyword arguments copied for a local recipient", ReachSpec{FromEdge: &local, Stop: `^store:new\(wamp\.Event\)\.&ArgumentsKw=makemap\(map\[string\]any\)$`,
-		Cut: []ir.Clause{clause("no keyword arguments", T(`^\(%msg\.ArgumentsKw == nil\)$`))}, Target: "EXIT", Want: false})
-	c.Has(r4, pe, "details copy source", `^call:maps\.Copy\(makemap\(map\[string\]any\), new\(wamp\.Event\)\.Details\)$`, 1)
-	for _, m := range []string{"syncPubSubMeta", "syncPubSubCreateMeta"} {
-		f := brk + m + "$1"
-		mk := `call:router\.\(\*broker\)\.` + m + `\$1\$1\(\)`
-		c.Guard(r4, f, "shared meta event only for remote subscribers", `^call:router\.\(\*broker\)\.trySend\(\^b, range\(%metaSub\.subscribers\)#k, phi\(`, 1,
-			clause("recipient is not in-process", F(`^call:invoke:wamp\.Peer\.IsLocal\[range\(%metaSub\.subscribers\)#k\.Peer\]\(\)$`)))
-		c.Has(r4, f, "local subscriber gets its own meta event", `^call:router\.\(\*broker\)\.trySend\(\^b, range\(%metaSub\.subscribers\)#k, `+mk+`\)$`, 1)
-	}
+	ruleLocalCopies(c, r4)
 	c.R.Floor(r4, 8)
 
 	// R5: session details leave the realm only through cleanSessionDetails
@@ -389,4 +375,25 @@ func ruleDictWrites(c *Ctx, r1 string) {
 		}
 	}
 	c.R.Check(nWrites >= 25, r1, "router", "dict write sites enumerated", "-", fmt.Sprintf("only %d dict write sites found; 25 were confirmed by reading", nWrites))
+}
+
+// ruleLocalCopies: what an in-process recipient gets (event details, arguments, keyword arguments, meta events) is a
+// private copy, so that a handler writing into its message cannot change what co-recipients or the publisher see.
+func ruleLocalCopies(c *Ctx, r4 string) {
+	pe := "router.prepareEvent"
+	local := clause("recipient is in-process", T(`^call:invoke:wamp\.Peer\.IsLocal\[%subscriber\.Peer\]\(\)$`))
+	c.Reach(r4, pe, "details copied for a local recipient", ReachSpec{FromEdge: &local, Stop: `^store:new\(wamp\.Event\)\.&Details=makemap\(map\[string\]any\)$`,
+		Cut: []ir.Clause{clause("no details", T(`^\(new\(wamp\.Event\)\.Details == nil\)$`))}, Target: "EXIT", Want: false})
+	c.Reach(r4, pe, "arguments cloned for a local recipient", ReachSpec{FromEdge: &local, Stop: `^store:new\(wamp\.Event\)\.&Arguments=call:slices\.Clone\(%msg\.Arguments\)$`,
+		Cut: []ir.Clause{clause("no arguments", T(`^\(%msg\.Arguments == nil\)$`))}, Target: "EXIT", Want: false})
+	c.Reach(r4, pe, "keyword arguments copied for a local recipient", ReachSpec{FromEdge: &local, Stop: `^store:new\(wamp\.Event\)\.&ArgumentsKw=makemap\(map\[string\]any\)$`,
+		Cut: []ir.Clause{clause("no keyword arguments", T(`^\(%msg\.ArgumentsKw == nil\)$`))}, Target: "EXIT", Want: false})
+	c.Has(r4, pe, "details copy source", `^call:maps\.Copy\(makemap\(map\[string\]any\), new\(wamp\.Event\)\.Details\)$`, 1)
+	for _, m := range []string{"syncPubSubMeta", "syncPubSubCreateMeta"} {
+		f := brk + m + "$1"
+		mk := `call:router\.\(\*broker\)\.` + m + `\$1\$1\(\)`
+		c.Guard(r4, f, "shared meta event only for remote subscribers", `^call:router\.\(\*broker\)\.trySend\(\^b, range\(%metaSub\.subscribers\)#k, phi\(`, 1,
+			clause("recipient is not in-process", F(`^call:invoke:wamp\.Peer\.IsLocal\[range\(%metaSub\.subscribers\)#k\.Peer\]\(\)$`)))
+		c.Has(r4, f, "local subscriber gets its own meta event", `^call:router\.\(\*broker\)\.trySend\(\^b, range\(%metaSub\.subscribers\)#k, `+mk+`\)$`, 1)
+	}
 }
